@@ -545,8 +545,8 @@ func (j *jsonReader) DateTime(tag int) (time.Time, error) {
 			return t, err
 		}
 		t = t.Local()
-		if t.Year() > 9999 {
-			// A zone offset can put the instant beyond year 9999: such a date cannot be written back in RFC 3339
+		if t.Year() > 9999 || t.Year() < 0 {
+			// A zone offset can put the instant beyond year 9999 or before year 0: such a date cannot be written back in RFC 3339
 			return time.Time{}, Errorf("date-time is out of range")
 		}
 		return t, j.Next()
